@@ -16,8 +16,10 @@ usage: tools/mutation_sweep.py [--limit N] [--only <substring of file>] [--runs 
 """
 import json, os, re, subprocess, sys, time
 
-REPO = '/repo'
-VERIF = '/verif'
+# MS_REPO / MS_VERIF: run against a scratch replica (a clone of /repo and a copy of /verif whose
+# sim/Cargo.toml points at the clone) so that a sweep does not occupy /repo itself
+REPO = os.environ.get('MS_REPO', '/repo')
+VERIF = os.environ.get('MS_VERIF', '/verif')
 OUT = os.path.join(VERIF, 'tools', 'mutation_sweep_c19arith.jsonl' if '--regions' in sys.argv else ('mutation_sweep_stmt.jsonl' if ('--mode' in sys.argv and 'stmt' in sys.argv) else 'mutation_sweep.jsonl'))
 
 # (file, first line, last line, properties to try in order); line ranges are inclusive, 1-based, and
@@ -135,7 +137,7 @@ def main():
     only = args[args.index('--only') + 1] if '--only' in args else ''
     runs = args[args.index('--runs') + 1] if '--runs' in args else '150000'
     resume = '--resume' in args
-    assert sh('git -C /repo status --porcelain').stdout.strip() == '', '/repo not clean'
+    assert sh(f'git -C {REPO} status --porcelain').stdout.strip() == '', '/repo not clean'
     done = set()
     if resume and os.path.exists(OUT):
         for l in open(OUT):
@@ -194,8 +196,8 @@ def main():
     except StopIteration:
         pass
     finally:
-        sh('git -C /repo checkout -- .')
-        sh("find /verif/replays -name '*.replay' -delete")
+        sh(f'git -C {REPO} checkout -- .')
+        sh(f"find {VERIF}/replays -name '*.replay' -delete")
     print('mutation sweep:', n, 'mutants', tally)
 
 if __name__ == '__main__':
